@@ -664,6 +664,64 @@ theorem todAdjOne_inside (n : Int) (t : Tok) (before : List (Ent × Int × Bool)
       · cases hu
     · simp only [hc, ↓reduceIte] at hu; cases hu
 
+theorem lookupCut_mem {α : Type} (k : Int) (l : List (Int × List α)) :
+    lookupCut k l = [] ∨ (k, lookupCut k l) ∈ l := by
+  induction l with
+  | nil => left; rfl
+  | cons x r ih =>
+    unfold lookupCut
+    split
+    · rename_i h
+      right
+      have : x.1 = k := by simpa using h
+      rw [← this]
+      simp
+    · rcases ih with h | h
+      · left; exact h
+      · right; exact List.mem_cons_of_mem _ h
+
+/-- `match_time_of_day` as a whole: every token of the first pass and every token the adjacency pass appends lies
+inside the text — for any specific-time-of-day matches, any outcomes of the searches around the date results, and
+any answers of the time-period extractor on the prefixes / suffixes of the text. -/
+theorem dtpTimeOfDay_inside (n : Int) (spec : List Mt) (dates : List TodFact) (adj : TodAdj)
+    (hs : ∀ m ∈ spec, m.In n) (hd : ∀ f ∈ dates, TodOK n f)
+    (hb : ∀ p ∈ adj.adjB, ∀ x ∈ p.2, x.1.In p.1 ∧ 0 ≤ x.2.1 ∧ x.1.start + x.1.len + x.2.1 ≤ p.1)
+    (ha : ∀ p ∈ adj.adjA, ∀ x ∈ p.2, x.1.In (n - p.1)) :
+    ∀ t ∈ dtpTimeOfDay n spec dates adj, t.Inside n := by
+  have hfirst : ∀ t ∈ tokensOf spec ++ todDates dates, t.Inside n := by
+    intro t ht
+    rw [List.mem_append] at ht
+    rcases ht with ht | ht
+    · exact tokensOf_inside n spec hs t ht
+    · exact todDates_inside n dates hd t ht
+  intro t ht
+  unfold dtpTimeOfDay at ht
+  split at ht
+  · exact tokensOf_inside n spec hs t ht
+  · simp only at ht
+    rw [List.mem_append] at ht
+    rcases ht with ht | ht
+    · exact hfirst t ht
+    · rw [List.mem_flatMap] at ht
+      obtain ⟨u, hu, htu⟩ := ht
+      have huin := hfirst u hu
+      have hlen : u.length = u.stop - u.start := by
+        obtain ⟨a, b, c⟩ := huin
+        unfold Tok.length; split <;> omega
+      apply todAdjOne_inside n u _ _ huin _ _ t htu
+      · intro x hx
+        rcases lookupCut_mem u.start adj.adjB with h | h
+        · rw [h] at hx; cases hx
+        · exact hb _ h x hx
+      · intro x hx
+        rcases lookupCut_mem (u.start + u.length) adj.adjA with h | h
+        · rw [h] at hx; cases hx
+        · have := ha _ h x hx
+          simp only at this
+          have he : n - (u.start + u.length) = n - u.stop := by rw [hlen]; omega
+          rw [he] at this
+          exact this
+
 /-- `match_relative_unit`. -/
 theorem dtpRelativeUnit_inside (n : Int) (rel rest : List Mt) (h1 : ∀ m ∈ rel, m.In n) (h2 : ∀ m ∈ rest, m.In n) :
     ∀ t ∈ dtpRelativeUnit rel rest, t.Inside n := by
